@@ -183,6 +183,35 @@ def string_expects(ans, acc=None):
     return acc
 
 
+def shape_problem(res, inp, is_list):
+    """Cheap re-check of the C01 shape invariants on a returned value: None, or a short description."""
+    import numbers
+
+    def entry(e):
+        if not isinstance(e, dict) or set(e) != {'ok', 'grade_decimal', 'msg'}:
+            return 'entry keys %r' % (sorted(e) if isinstance(e, dict) else type(e).__name__,)
+        gd = e['grade_decimal']
+        if isinstance(gd, bool) or not isinstance(gd, numbers.Real) or not 0 <= gd <= 1:
+            return 'grade_decimal %r' % (gd,)
+        if not isinstance(e['msg'], str):
+            return 'msg %r' % (e['msg'],)
+        if e['ok'] not in (True, False, 'partial'):
+            return 'ok %r' % (e['ok'],)
+        return None
+    if not isinstance(res, dict):
+        return 'returned %s' % type(res).__name__
+    if is_list:
+        if set(res) != {'overall_message', 'input_list'} or not isinstance(res['overall_message'], str) \
+                or not isinstance(res['input_list'], list) or len(res['input_list']) != len(inp):
+            return 'list result keys %r / entry count' % (sorted(res),)
+        for e in res['input_list']:
+            p = entry(e)
+            if p:
+                return p
+        return None
+    return entry(res)
+
+
 # ----------------------------------------------------------------------------------------------------
 # small strategies
 
@@ -210,8 +239,9 @@ def subset(draw, pool, lo, hi):
 class Slot:
     """Student-text strategies for one input box: good (matches some configured alternative) / near (plausible)."""
 
-    def __init__(self, good, near):
+    def __init__(self, good, near, limit=False):
         self.good, self.near = good, near
+        self.limit = limit      # a SumGrader limit field: its text stays within the bounded pool (|limit| <= 2000)
 
 
 def alternatives(draw, expects, sentinel=None, pins=True):
@@ -820,7 +850,7 @@ def build_sum(draw):
         i = SUM_FIELDS.index(f)
         goods = sorted({t[i] for t in tuples})
         nears = sorted({t[i] for t in nearm}) + (SUM_LIMIT_JUNK if i < 2 else ['', 'n+', 'zqz', 'n n', '1/0', 'j', 'pi'])
-        slots.append(Slot(st.sampled_from(goods), st.sampled_from(nears)))
+        slots.append(Slot(st.sampled_from(goods), st.sampled_from(nears), limit=i < 2))
     # consistent rewrites are tuples, so coherent inputs are offered through a joint strategy
     return {'$g': 'SumGrader', 'kw': kw}, slots, len(order) == 1, [[t[SUM_FIELDS.index(f)] for f in order] for t in tuples]
 
